@@ -530,8 +530,37 @@ def check_memberwise_equality(run, rule):
     if not bad or bad[1] != ["c"] or not good or good[1]:
         raise AnalysisBroken(rule, "positive control verif_rc::r18_6_same_params: expected member c reported missing and the full comparison accepted, found %s / %s" % (bad, good))
     n = 0
-    for f in sorted(list(facts.functions.values()) + list(getattr(facts, "absorbed", {}).values()), key=lambda x: x["key"]):
-        if "/src/bin/" not in (f.get("file") or ""):
+    everything = list(facts.functions.values()) + list(getattr(facts, "absorbed", {}).values())
+    tool_fns = [f for f in everything if "/src/bin/" in (f.get("file") or "") and f.get("body_raw") is not None]
+    # Which comparisons *identify* values: those whose answer makes a loop over existing entries return the entry found, in a
+    # function that adds the value otherwise (find-or-add) - and the comparisons these are built from.  A predicate that looks at
+    # a few members for another purpose (`same_format_version`) is not one of them.
+    def calls_of(fn):
+        return [c for c in ir.walk(fn.get("body_raw") or {}) if c.get("k") in ("Call", "MCall") and isinstance(c.get("callee"), dict)]
+    roots = set()
+    for g in tool_fns:
+        for lp in ir.walk(g["body_raw"]):
+            if lp.get("k") not in ("For", "While", "RangeFor"):
+                continue
+            for ifn in ir.walk(lp.get("body") or {}):
+                if ifn.get("k") == "If" and any(x.get("k") == "Return" and x.get("e") is not None for x in ir.walk(ifn.get("then") or {})):
+                    for c in ir.walk(ifn.get("cond") or {}):
+                        if c.get("k") in ("Call", "MCall") and isinstance(c.get("callee"), dict):
+                            if any(callee_name(a_).startswith("add") for a_ in calls_of(g) if callee_name(a_)):
+                                roots.add(callee_qn(c))
+    closure = set(roots)
+    changed = True
+    while changed:
+        changed = False
+        for g in tool_fns:
+            if g["qn"] in closure:
+                for c in calls_of(g):
+                    q_ = callee_qn(c)
+                    if q_ and q_ not in closure and any(h_["qn"] == q_ for h_ in tool_fns):
+                        closure.add(q_)
+                        changed = True
+    for f in sorted(everything, key=lambda x: x["key"]):
+        if "/src/bin/" not in (f.get("file") or "") or f["qn"] not in closure:
             continue
         r = memberwise_equality(facts, f)
         if r is None:
